@@ -445,6 +445,13 @@ func GenBankParser(state *pars.State, result *pars.Result) error {
 		}
 	}
 
+	// The sequence must have the length the LOCUS line declares, unless the
+	// record only refers to its sequence through a CONTIG field.
+	if gb.Origin.Len() != length && gb.Fields.Contig.Accession == "" {
+		what := fmt.Sprintf("LOCUS declares %d residues but the record holds %d", length, gb.Origin.Len())
+		return pars.NewError(what, state.Position())
+	}
+
 	result.SetValue(*gb)
 	return nil
 }
